@@ -19,7 +19,9 @@ RULE = ('(A) untyped expression trees (all depth-2 (parent form, slot, child for
         'sub-expressions. Only inputs that parse WITHOUT any error or warning are in the domain. Oracle: s1=str(e1) does '
         'not throw; parsing s1 in the same scope adds no diagnostic and yields a tree equal to e1 (binders alpha-normalised, '
         'doubles bit-exact); str(e2)==s1. Non-trivial: >= 2 operator nodes, or any query form other than a bare "E<> id"; '
-        'distinct = distinct accepted input texts.')
+        'distinct = distinct accepted input texts. (C) libFuzzer fork-mode campaigns on fz_xml and fz_query with the "string conversion '
+        'never throws or crashes" oracle inside the target: str() of every expression of every document / query the fuzzer manages to build '
+        '(non-trivial there: final corpus entries that reached the grammar).')
 
 
 def norm_binders(s):
@@ -227,6 +229,9 @@ def worker(chk, wi, nw):
 
 
 def confirm(case):
+    if case.get('kind') == 'fuzz':
+        import c01_fuzz
+        return c01_fuzz.confirm_fuzz(case)
     orc = oracle.Oracle(os.path.join(common.WORK, 'C03', 'confirm'), cpu_limit=30)
     try:
         if case['kind'] == 'tree':
@@ -246,6 +251,13 @@ def run(chk):
                        'expression_t::equal is reported by the server but not used as verdict for trees with binders',
                        'queries are parsed with TigaPropertyBuilder, expressions with an ExpressionBuilder that allows process references']
     chk.run_workers(worker)
+    if 'nofuzz' not in os.environ.get('C03_LAYERS', ''):
+        # string conversion never throws or crashes: str() on every expression of whatever documents / queries the fuzzer builds
+        import c01_fuzz
+        chk.build('fuzz')
+        quick = chk.tier == 'quick'
+        for target, runs in (('fz_xml', 15000 if quick else 500000), ('fz_query', 20000 if quick else 700000)):
+            c01_fuzz.campaign(chk, target, runs, 2048 if quick else 16384, oracles='c03', seed=chk.seed + 1, prop='C03')
     chk.explanation = 'depth-2 operator-pair space enumerated; deeper trees and queries sampled; listed known findings are excluded by descriptor and counted'
     return chk.finish(confirm=confirm)
 
@@ -254,6 +266,8 @@ def replay(chk, path):
     chk.build('oracle')
     rec = json.load(open(path))
     case = rec.get('case', rec)
+    if case.get('kind') == 'fuzz':
+        chk.build('fuzz')
     r = confirm(case)
     if r:
         print('  ' + str(r[1])[:1500])
